@@ -41,18 +41,22 @@ Fixpoint leaves_of (e : env) (fuel : nat) (pre : path) (depth : nat) (hops : lis
       flat_map (fun f =>
         if sf_emb f then
           let q := pre ++ [type_name (sf_ty f)] in
+          (* an embedded field that is not a struct promotes nothing: it is itself a
+             field, named after its type (shoot drops it: K_map_embedded_nonstruct) *)
+          let self := [{| l_name := type_name (sf_ty f); l_path := q; l_ty := sf_ty f; l_depth := depth;
+                          l_hops := hops; l_tag := sf_tag f |}] in
           match sf_ty f with
           | TPtr (TNamed p n) =>
               match lookup_decl e p n with
               | Some (DStruct gs) => leaves_of e fuel' q (S depth) (hops ++ [(q, TNamed p n)]) gs
-              | _ => []
+              | _ => self
               end
           | TNamed p n =>
               match lookup_decl e p n with
               | Some (DStruct gs) => leaves_of e fuel' q (S depth) hops gs
-              | _ => []
+              | _ => self
               end
-          | _ => []
+          | _ => self
           end
         else [{| l_name := sf_name f; l_path := pre ++ [sf_name f]; l_ty := sf_ty f; l_depth := depth;
                  l_hops := hops; l_tag := sf_tag f |}]) fs
@@ -110,20 +114,32 @@ Definition visible (e : env) (fuel : nat) (p : pkg) (n : string) : list leaf :=
                (nodup_names [] ls)
   end.
 
-(* source-side tags: Pascal(name) |-> Pascal(tag) for top-level fields with a non-empty tag other than "-" *)
+(* source-side tags: field name |-> tag, as written, for top-level fields with a
+   non-empty tag other than "-" *)
 Definition tags_of (e : env) (n : string) : tagmap :=
   match struct_fields e PSrc n with
   | None => []
   | Some fs =>
       rev (flat_map (fun f => if negb (sf_emb f) && negb (String.eqb (sf_tag f) "") && negb (String.eqb (sf_tag f) "-")
-                              then [(to_pascal_case (sf_name f), to_pascal_case (sf_tag f))] else []) fs)
+                              then [(sf_name f, sf_tag f)] else []) fs)
   end.
 
-(* "the names match": identical, equal up to acronym casing, through a tag, or
-   case-insensitively with -i *)
+(* two identifiers are the same name: identical or equal up to acronym casing; with -i, up to case *)
+Definition same_name (ic : bool) (a b : string) : bool := if ic then equal_fold a b else smart_match a b.
+
+(* "the names match": identical, equal up to acronym casing, through a
+   `map:"Name"` tag, or case-insensitively with -i.  A tagged source field
+   matches the destination field its tag names; the tag may also be written in
+   another case style (`map:"user_name"` names UserName).  shoot keys its tag map
+   by the Pascal form of the FIELD name and looks it up with the raw name, and
+   compares the Pascal form of the tag only: a tag on a field whose name contains
+   `_`, and a tag naming a destination field that contains `_`, are lost
+   (K_map_tag_underscore, guard [tag_guard]). *)
 Definition names_match (tm : tagmap) (ic : bool) (sname dname : string) : bool :=
-  let m1 := match tm_get tm sname with Some t => t | None => sname end in
-  if ic then equal_fold m1 dname else smart_match m1 dname.
+  match tm_get tm sname with
+  | Some t => same_name ic t dname || same_name ic (to_pascal_case t) dname
+  | None => same_name ic sname dname
+  end.
 
 Definition elem_of (t : ty) : option ty := match t with TSlice x => Some x | _ => None end.
 
@@ -279,6 +295,23 @@ Section Spec.
 End Spec.
 
 (* ---------------------------------------------------------------- guards *)
+(* every embedded field, at every depth, is a declared struct (by value or pointer) *)
+Fixpoint emb_structs (e : env) (fuel : nat) (fs : list sfield) : bool :=
+  match fuel with
+  | O => true
+  | S fuel' =>
+      forallb (fun f =>
+        negb (sf_emb f)
+        || match sf_ty f with
+           | TPtr (TNamed p n) | TNamed p n =>
+               match lookup_decl e p n with
+               | Some (DStruct gs) => emb_structs e fuel' gs
+               | _ => false
+               end
+           | _ => false
+           end) fs
+  end.
+
 (* G1: selectors are unambiguous and field names do not collide with embedded
    type names; a top-level map:"-" name does not reappear deeper; deeper
    fields carry no map tag (shoot reads tags of the top level only) *)
@@ -296,8 +329,9 @@ Definition side_guard (e : env) (fuel : nat) (p : pkg) (n : string) : bool :=
                  && (negb (Nat.eqb (l_depth l) 0 && String.eqb (l_tag l) "-")
                      || Nat.eqb (length (filter (fun l' => String.eqb (l_name l') (l_name l)) ls)) 1)) ls
       && forallb (fun x => Nat.eqb (length (filter (fun y => String.eqb (fst y) (fst x) && Nat.eqb (snd y) (snd x)) en)) 1) en
-      (* every embedded field expands to a declared struct *)
       && forallb (fun x => negb (String.eqb (fst x) "")) en
+      (* every embedded field expands to a declared struct (K_map_embedded_nonstruct otherwise) *)
+      && emb_structs e fuel fs
   end.
 
 (* G2: name matching is one-to-one between the visible fields *)
@@ -339,8 +373,23 @@ Definition plain_job (jb : job) : bool :=
   | _, _, _, _ => false
   end.
 
+(* K_map_tag_underscore: the tag of every tagged top-level source field is found
+   (the field name is its own Pascal form) and the tag reaches every destination
+   field it names (naming it as written implies naming it in Pascal form) *)
+Definition tag_guard (e : env) (fuel : nat) (jb : job) : bool :=
+  let ds := visible e fuel PDst (j_dst jb) in
+  match struct_fields e PSrc (j_src jb) with
+  | None => true
+  | Some fs =>
+      forallb (fun f =>
+        sf_emb f || String.eqb (sf_tag f) "" || String.eqb (sf_tag f) "-"
+        || (String.eqb (to_pascal_case (sf_name f)) (sf_name f)
+            && forallb (fun d => negb (same_name (j_ic jb) (sf_tag f) (l_name d))
+                                 || same_name (j_ic jb) (to_pascal_case (sf_tag f)) (l_name d)) ds)) fs
+  end.
+
 Definition job_guard (e : env) (fuel : nat) (jobs : list job) (jb : job) : bool :=
-  plain_job jb
+  plain_job jb && tag_guard e fuel jb
   && side_guard e fuel PSrc (j_src jb) && side_guard e fuel PDst (j_dst jb)
   && no_fanout e fuel jb
   && strategies_ok e jobs (j_mapper_hop jb) true (pairs_to e fuel jb)
